@@ -56,7 +56,7 @@ def main():
         args = args[1:]
     props = args or list(PROPS)
     try:
-        base = {p: {k.split(" :: ")[0] for k in ks} for p, ks in all_keys("/repo", props).items()}
+        base = {p: {k.split(" :: ")[0] for k in ks} for p, ks in all_keys(os.environ.get("BASE_REPO", "/repo"), props).items()}
         for p_, ks_ in base.items():
             for k_ in ks_:
                 if k_.startswith("CHECKER-CRASHED"):
